@@ -1151,9 +1151,17 @@ func (sd *SignedData) VerifyWithConfig(config *CMSConfig, trustedCerts CertPool)
 		return nil, fmt.Errorf("[Verify] NO SignerInfos present")
 	}
 
+	// NB unless the caller supplied a reference-time, each signer-info is checked against its
+	//    own signing-time (not the signing-time of the first signer-info)
+	refTimeSupplied := config.ReferenceTime != nil
+
 	// for-each signer-info
 	for siIdx := range sd.SignerInfos {
 		var tmpCertChain [][]byte
+
+		if !refTimeSupplied {
+			config.ReferenceTime = nil
+		}
 
 		tmpCertChain, err = sd.SignerInfos[siIdx].VerifyWithConfig(config, sd, trustedCerts)
 		if err != nil {
